@@ -134,7 +134,11 @@ func (g *c07gen) dict(depth int) *term.Dict {
 				k = term.S(term.Lit(name))
 			}
 		default:
-			k = term.S(term.Id("f"), term.G("Call", term.S(term.Lit(g.kctr))))
+			if r.Intn(3) == 0 {
+				k = g.compositeKey(pick(r, []string{"Point", "P2"}))
+			} else {
+				k = term.S(term.Id("f"), term.G("Call", term.S(term.Lit(g.kctr))))
+			}
 		}
 		var v term.Node
 		null := false
@@ -174,6 +178,38 @@ func (g *c07gen) dict(depth int) *term.Dict {
 	g.sawMap(surviving)
 	g.tag("dict-pairs=" + c07Bucket(n, 1, 4, 9))
 	return d
+}
+
+// compositeKey: a Dict key that itself contains a Dict, `typ{X: .., Y: .., ..}` with 2..4
+// inner pairs over the field names X Y Z W (inserted in random order).  The values hold the
+// running counter, so the texts of all such keys of a file are pairwise distinct, while
+// the keys of one type share everything up to the first value.
+func (g *c07gen) compositeKey(typ string) term.Node {
+	r := g.r
+	fields := []string{"X", "Y", "Z", "W"}
+	n := 2 + r.Intn(3)
+	inner := &term.Dict{}
+	for _, j := range r.Perm(4)[:n] {
+		g.kctr++
+		inner.Pairs = append(inner.Pairs, [2]term.Node{term.S(term.Id(fields[j])), term.S(term.Lit(r.Intn(3)*1000 + g.kctr))})
+	}
+	g.sawMap(n)
+	g.tag("dict-key-contains-dict")
+	return term.S(term.Id(typ), term.G("Values", inner))
+}
+
+// compositeKeyDict: `map[Point]int{Point{..}: 1, ...}` whose 2..6 keys are all composite
+// literals of ONE type (their texts differ only inside the inner Dicts).
+func (g *c07gen) compositeKeyDict() *term.Stmt {
+	r := g.r
+	n := 2 + r.Intn(5)
+	d := &term.Dict{}
+	for i := 0; i < n; i++ {
+		d.Pairs = append(d.Pairs, [2]term.Node{g.compositeKey("Point"), term.S(term.Lit(i))})
+	}
+	g.sawMap(n)
+	g.tag("dict-composite-keys=" + c07Bucket(n, 2, 4))
+	return term.S(term.Named("Var"), term.Id("_"), term.Op("="), term.G("Map", term.S(term.Id("Point"))), term.Named("Int"), term.G("Values", d))
 }
 
 func (g *c07gen) tagNode() term.Tag {
@@ -316,6 +352,9 @@ func c07Recipe(r *rand.Rand) *Case {
 		}
 		rest = append(rest, term.S(term.Named("Type"), term.Id(fmt.Sprintf("T%d", g.kctr)), term.G("Struct", fields...)))
 	}
+	if r.Intn(3) == 0 {
+		rest = append(rest, g.compositeKeyDict())
+	}
 	r.Shuffle(len(rest), func(a, b int) { rest[a], rest[b] = rest[b], rest[a] })
 	for _, st := range rest {
 		h = append(h, hist.Op{Kind: "fadd", F: 0, Code: st})
@@ -341,6 +380,131 @@ func c07Recipe(r *rand.Rand) *Case {
 		Meta: map[string]interface{}{"builds": 8}}
 }
 
+// c07Families: paths whose guessed (or standard) package names coincide.
+var c07Families = []struct {
+	Name  string
+	Paths []string
+}{
+	{"c", []string{"a.b/c", "x.y/c", "q.r/c"}},
+	{"rand", []string{"math/rand", "crypto/rand", "a.b/rand", "x.y/rand"}},
+	{"d", []string{"a.b/d", "c.b/d", "e.f/d"}},
+	{"template", []string{"text/template", "html/template"}},
+	{"x", []string{"a.b/x", "c.d/x", "e.f/x"}},
+	{"pkg", []string{"x.y/pkg", "a/123", "a/-"}},
+	{"yamlv3", []string{"gopkg.in/yaml.v3", "x.y/yaml-v3"}},
+	{"foo", []string{"a.example/foo", "b.example/Foo", "c.example/f-o-o/"}},
+}
+
+// c07PlainAfterFailure draws one history of 2..6 plain renders (Statement.Render with no
+// File: the library renders each against a NEW empty File).  Renders that fail - a format
+// error (a fragment gofmt rejects) or a panic (Values(Dict, x); Lit of an unsupported type),
+// recovered by the harness - reference a path P1 of a family of paths with one guessed name;
+// they are followed by successful renders of OTHER statements referencing DIFFERENT paths of
+// the same family.  Nothing a failed render registered may be visible later: the successful
+// render writes n.Name, not n1.Name.
+//
+// Meta: "plain" = per operation "fail" or the exact text the render must write.
+func c07PlainAfterFailure(r *rand.Rand) *Case {
+	fam := c07Families[r.Intn(len(c07Families))]
+	n := fam.Name
+	perm := r.Perm(len(fam.Paths))
+	path := func(i int) string { return fam.Paths[perm[i%len(perm)]] }
+	tags := map[string]bool{"family=" + n: true}
+	ctr := 0
+	failing := func(p string) *term.Stmt {
+		ctr++
+		a := fmt.Sprintf("A%d", ctr)
+		switch r.Intn(8) {
+		case 0:
+			tags["fail=fmterr"] = true
+			return term.S(term.Qual(p, a), term.Op("{")) // n.A {
+		case 1:
+			tags["fail=fmterr"] = true
+			return term.S(term.Qual(p, a), term.Id("b"), term.Id("c")) // n.A b c
+		case 2:
+			tags["fail=fmterr"] = true
+			return term.S(term.Named("Func"), term.Qual(p, a), term.Op(")")) // func n.A )
+		case 3:
+			tags["fail=fmterr"] = true
+			return term.S(term.Id("f"), term.G("Call", term.S(term.Qual(p, a)), term.S(term.Op("}")))) // f(n.A,})
+		case 4:
+			tags["fail=fmterr"] = true
+			return term.S(term.Qual(p, a), term.Op("="), term.Op("=")) // n.A = =
+		case 5, 6:
+			// the qualifier is rendered (and its path registered), then Values panics on its second item
+			tags["fail=panic-values-dict"] = true
+			d := &term.Dict{Pairs: [][2]term.Node{{term.S(term.Id("k")), term.S(term.Lit(ctr))}}}
+			return term.S(term.Qual(p, a), term.G("Values", d, term.S(term.Lit(2))))
+		default:
+			tags["fail=panic-bad-lit"] = true
+			return term.S(term.Qual(p, a), term.Op("+"), term.Lit(struct{}{}))
+		}
+	}
+	// ok draws a valid fragment over path(i), path(i+1) and the text it must render to
+	ok := func(i int) (*term.Stmt, string) {
+		ctr++
+		m := fmt.Sprintf("M%d", ctr)
+		p := path(i)
+		switch r.Intn(4) {
+		case 0:
+			return term.S(term.Qual(p, m)), n + "." + m
+		case 1:
+			return term.S(term.Id("v"), term.Op(":="), term.Qual(p, m)), "v := " + n + "." + m
+		case 2:
+			if q := path(i + 1); q != p {
+				// two paths of the family in one render: the first is n, the second n1
+				return term.S(term.Qual(p, m), term.G("Call", term.S(term.Qual(q, "V")))), n + "." + m + "(" + n + "1.V)"
+			}
+			return term.S(term.Qual(p, m), term.G("Call")), n + "." + m + "()"
+		default:
+			return term.S(term.Qual(p, m), term.G("Call", term.S(term.Lit(ctr)))), fmt.Sprintf("%s.%s(%d)", n, m, ctr)
+		}
+	}
+	var h hist.History
+	var plan []string
+	nfail, nokAfter := 0, 0
+	k := 0              // index into the family: every render uses the next path
+	if r.Intn(4) == 0 { // a successful render first: nothing of it is visible later either
+		st, want := ok(k)
+		k++
+		h = append(h, hist.Op{Kind: "rplain", Code: st})
+		plan = append(plan, want)
+	}
+	rounds := 1 + r.Intn(2)
+	for j := 0; j < rounds; j++ {
+		for f := 1 + r.Intn(2); f > 0; f-- {
+			h = append(h, hist.Op{Kind: "rplain", Code: failing(path(k))})
+			k++
+			plan = append(plan, "fail")
+			nfail++
+		}
+		for s := 1 + r.Intn(2); s > 0 && len(h) < 6; s-- {
+			st, want := ok(k)
+			k++
+			h = append(h, hist.Op{Kind: "rplain", Code: st})
+			plan = append(plan, want)
+			nokAfter++
+		}
+	}
+	if plan[len(plan)-1] == "fail" {
+		st, want := ok(k)
+		h = append(h, hist.Op{Kind: "rplain", Code: st})
+		plan = append(plan, want)
+		nokAfter++
+	}
+	tags[fmt.Sprintf("failed-renders=%d", nfail)] = true
+	var ts []string
+	for t := range tags {
+		ts = append(ts, t)
+	}
+	sort.Strings(ts)
+	// NonTrivial: at least one render that fails after registering a path is followed by a
+	// successful render naming another path with the same guessed name (true by construction;
+	// the oracle checks that the renders planned to fail really failed).
+	return &Case{Hist: h, Stream: "plain-after-failure", Tags: ts, NonTrivial: nfail > 0 && nokAfter > 0,
+		Meta: map[string]interface{}{"builds": 8, "plain": plan, "everyobs": true}}
+}
+
 func c07Cases(sub int64, t string) []*Case {
 	r := rand.New(rand.NewSource(sub))
 	n := tier(t, 400, 20000)
@@ -348,6 +512,14 @@ func c07Cases(sub int64, t string) []*Case {
 	for i := 0; i < n; i++ {
 		c := c07Recipe(r)
 		c.Meta["xkey"] = fmt.Sprintf("g%d", i)
+		out = append(out, c)
+	}
+	// its own PRNG: the recipes above are the same whether or not this stream exists
+	rp := rand.New(rand.NewSource(sub ^ 0x70a1))
+	np := tier(t, 300, 6000)
+	for i := 0; i < np; i++ {
+		c := c07PlainAfterFailure(rp)
+		c.Meta["xkey"] = fmt.Sprintf("p%d", i)
 		out = append(out, c)
 	}
 	return out
@@ -408,6 +580,19 @@ func (c07) Regressions() []*Case {
 // imported paths, and the output as a multiset of non-blank bytes (assigning x, x1, x2 to
 // the paths in another order permutes names, it does not change which bytes are used).
 func (c07) Compare(c *Case, exp, got []hist.Obs) string {
+	if c.Meta["everyobs"] == true {
+		// plain renders: every render has its own File, so the observations after a panic are
+		// as meaningful as those before it (CompareAll stops at the first panic)
+		if len(exp) != len(got) {
+			return fmt.Sprintf("observation count differs: model %d, implementation %d", len(exp), len(got))
+		}
+		for i := range exp {
+			if !hist.SameObs(exp[i], got[i]) {
+				return fmt.Sprintf("observation %d differs:\n  model: %s\n  impl:  %s", i, exp[i], got[i])
+			}
+		}
+		return ""
+	}
 	if c.Meta["weak"] != true {
 		return CompareAll(exp, got)
 	}
@@ -463,8 +648,41 @@ func c07FirstDiff(a, b []hist.Obs) string {
 }
 
 // Oracle: byte equality across repetitions.
+// c07PlainCheck: the plain-after-failure stream.  Every render has its own File, so what a
+// render writes may depend on its own statement only: it must equal the planned text and
+// what the same operation gives when it is the only one ever executed (fresh objects).
+func c07PlainCheck(c *Case, plan []string, got []hist.Obs) string {
+	if len(got) != len(plan) || len(c.Hist) != len(plan) {
+		return fmt.Sprintf("expected %d observations, got %d", len(plan), len(got))
+	}
+	for i, want := range plan {
+		o := got[i]
+		if want == "fail" {
+			if o.Kind != "fmterr" && o.Kind != "panic" {
+				return fmt.Sprintf("harness: render %d was built to fail but gave %s", i, o)
+			}
+			if o.Writes != 0 {
+				return fmt.Sprintf("render %d failed but the writer was called", i)
+			}
+			continue
+		}
+		if o.Kind != "write" || o.Out != want {
+			return fmt.Sprintf("render %d (after %d earlier plain renders) wrote %s, want %q", i, i, o, want)
+		}
+		alone := c07Exec(hist.History{c.Hist[i]})
+		if len(alone) != 1 || alone[0].String() != o.String() {
+			return fmt.Sprintf("render %d differs from the same render executed alone:\n  in the history: %s\n  alone:          %v", i, o, alone)
+		}
+	}
+	return ""
+}
+
 func (c07) Oracle(c *Case, got []hist.Obs) string {
-	if c.Meta["weak"] != true {
+	if plan, ok := c.Meta["plain"].([]string); ok {
+		if m := c07PlainCheck(c, plan, got); m != "" {
+			return m
+		}
+	} else if c.Meta["weak"] != true {
 		// the recipes are valid files: a failed render would make the comparison vacuous
 		if o, ok := lastWrite(got); !ok || o.Kind != "write" {
 			return fmt.Sprintf("the recipe did not render: %v", got)
